@@ -933,6 +933,17 @@ def handleAppend (cmd : String) (args : List String) : String :=
   | "ap.schemaold", [t, a] => match parseFields t, parseFields a with
       | some ts, some as => if acceptsArgOld ts as then "accept" else "reject"
       | _, _ => "bad-op"
+  | "ap.file", [t, ft] =>
+      -- table schema, footer as name:arrowtype:nullable(0/1) list; arrow types percent-encoded
+      let parseFooter (x : String) : Option Footer :=
+        (x.splitOn ",").mapM fun c => match c.splitOn ":" with
+          | [n, ty, nu] => match decStr ty with
+              | some tyd => if nu = "1" || nu = "0" then some (n, String.ofList tyd, nu = "1") else none
+              | none => none
+          | _ => none
+      match parseFields t, parseFooter ft with
+      | some ts, some f => if fileAccepts ts f then "accept" else "reject"
+      | _, _ => "bad-op"
   | "ap.batch", [t, a, rs] =>
       -- table schema, schema argument ("none" = omitted), records separated by ';'
       match parseFields t, (if a = "none" then some none else (parseFields a).map some), (rs.splitOn ";").mapM parseRecord with
